@@ -10,6 +10,7 @@ import (
 	"github.com/mit-pdos/go-journal/vrt"
 	"github.com/mit-pdos/go-nfsd/inode"
 	"github.com/mit-pdos/go-nfsd/nfs"
+	"github.com/mit-pdos/go-nfsd/nfstypes"
 	"verif/fsck"
 	"verif/fsx"
 	"verif/reffs"
@@ -29,6 +30,15 @@ type World struct {
 	Mark     bool // emit inv/ack markers into the disk trace
 	Pending  bool // unstable data not yet flushed
 	FreshB, FreshI uint64 // free counts of the freshly formatted file system
+	ViaXDR bool // requests go through XDR encoding and the registration table (C02 transport search)
+}
+
+// api is what requests are sent to: the server itself or the XDR proxy in front of it.
+func (w *World) api() nfstypes.NFS_PROGRAM_NFS_V3_handler {
+	if w.ViaXDR {
+		return fsx.NewXDRProxy(w.Srv)
+	}
+	return w.Srv
 }
 
 func NewWorld(img *vdisk.Image) *World {
@@ -205,7 +215,7 @@ func (w *World) Do(o fsx.Op) (r fsx.Reply, implFail bool, mis *reffs.Mismatch) {
 	if w.Mark {
 		w.Disk.Mark("inv", w.NOps, 0)
 	}
-	r = fsx.Exec(w.Srv, o, h, h2)
+	r = fsx.Exec(w.api(), o, h, h2)
 	if w.Mark {
 		// an acknowledgement has stable semantics if the request succeeded, changed
 		// something (or was a COMMIT) and was not an UNSTABLE write
@@ -359,7 +369,7 @@ func (w *World) FreeCounts() (uint64, uint64) {
 
 // CompareDump: API-only dump of the server vs the model.
 func (w *World) CompareDump(withHandles bool) string {
-	d, err := fsx.Dump(w.Srv, w.Probe)
+	d, err := fsx.Dump(w.api(), w.Probe)
 	if err != nil {
 		return "dump failed: " + err.Error()
 	}
